@@ -182,6 +182,46 @@ func vNoBytesIn(s string, lo, hi int, set string) bool {
 	return true
 }
 func vSetAddrMax(n int)            {}
+
+// vNondetText builds a valid UTF-8 string with exactly the byte length and rune count of the oracle
+// (every pair with runes <= len <= 4*runes is realisable with 1..4-byte runes).
+func vNondetText(site string, max int) string {
+	k := vSiteKey(site)
+	num := func(key string) int {
+		switch x := vOracle[key].(type) {
+		case string:
+			u, _ := strconv.ParseUint(x, 10, 64)
+			return int(u)
+		case float64:
+			return int(x)
+		}
+		return 0
+	}
+	l, r := num(k+".len"), num(k+".runes")
+	if r == 0 || l < r {
+		return ""
+	}
+	out := make([]byte, 0, l)
+	extra := l - r // bytes beyond one per rune
+	for i := 0; i < r; i++ {
+		add := extra
+		if add > 3 {
+			add = 3
+		}
+		extra -= add
+		switch add {
+		case 0:
+			out = append(out, 'a')
+		case 1:
+			out = append(out, 0xC3, 0xA9) // é
+		case 2:
+			out = append(out, 0xE2, 0x82, 0xAC) // €
+		case 3:
+			out = append(out, 0xF0, 0x9F, 0x98, 0x80) // 😀
+		}
+	}
+	return string(out)
+}
 func vHasPrefixS(s, p string) bool { return len(s) >= len(p) && s[:len(p)] == p }
 func vAll(c ...bool) bool {
 	for _, x := range c {
